@@ -234,14 +234,15 @@ def main(argv=None):
                 violations[k] = v
     # samples: round robin over shards, prefer distinct label signatures
     seen = set()
-    for i in range(8):
-        for r in results:
-            if i < len(r["samples"]):
-                s = r["samples"][i]
-                sig = tuple(s["labels"])
-                if sig not in seen and len(samples) < 10:
-                    seen.add(sig)
-                    samples.append(s)
+    for want_nontrivial in (True, False):
+        for i in range(8):
+            for r in results:
+                if i < len(r["samples"]):
+                    s = r["samples"][i]
+                    sig = tuple(s["labels"])
+                    if s["nontrivial"] == want_nontrivial and sig not in seen and len(samples) < (8 if want_nontrivial else 10):
+                        seen.add(sig)
+                        samples.append(s)
     for r in results:
         for a in r.get("native_aborts", []):
             aborted_cases.append({"shard": r["shard"], "signal": -a["returncode"] if a["returncode"] and a["returncode"] < 0 else a["returncode"], "case": a["case"], "isolated": True})
